@@ -51,15 +51,21 @@ Definition e_udp_result (r : res message * Z) : list bytes :=
   end.
 Definition recv_bytes (evs : list uev) : nat :=
   fold_left (fun n e => match e with URecv d => (n + List.length d)%nat | _ => n end) evs 0%nat.
-Definition run_rxudp (args : list bytes) : list bytes :=
+(* buffers that sit in the pool more than once (a buffer freed twice); 0 in every reachable state: C10_pool_exclusive_udp *)
+Definition pool_dups (p : pool) : nat :=
+  let ids := map fst (p_stack p) in (List.length ids - List.length (nodup Nat.eq_dec ids))%nat.
+(* [wire]: the rxwire component reports the duplicates in the pool instead of its size (the harness' barrier
+   buffers join the real pool there, so its size is not comparable) *)
+Definition run_rxudp_gen (wire : bool) (args : list bytes) : list bytes :=
   match run_dec d_udp_case args with
   | Some (asize, evs) =>
       let '(u, outs) := udp_run udp_parse_a (new_udp (640 * 64) asize) evs in
       let a := fold_left (fun z r => (z + snd r)%Z) outs 0%Z in
       e_nat (List.length outs) :: flat_map e_udp_result outs ++
-      [e_nat (pool_size (u_pool u)); e_bool (balloon a (recv_bytes evs) (List.length outs))]
+      [e_nat (if wire then pool_dups (u_pool u) else pool_size (u_pool u)); e_bool (balloon a (recv_bytes evs) (List.length outs))]
   | None => [s2b "decode-error"]
   end.
+Definition run_rxudp := run_rxudp_gen false.
 
 Definition d_pop : dec pop :=
   dlet o := d_bytes in
@@ -89,6 +95,7 @@ Definition run_rxpool (args : list bytes) : list bytes :=
 Definition run_bufio (comp : bytes) (args : list bytes) : option (list bytes) :=
   if (beq comp (s2b "rxstream") || beq comp (s2b "rxstream-c08"))%bool then Some (run_rxstream args)
   else if (beq comp (s2b "rxudp") || beq comp (s2b "rxudp-c08"))%bool then Some (run_rxudp args)
+  else if beq comp (s2b "rxwire") then Some (run_rxudp_gen true args)
   else if beq comp (s2b "rxpool") then Some (run_rxpool args)
   else None.
 
@@ -125,20 +132,23 @@ Fixpoint all_some {A} (l : list (option A)) : option (list A) :=
   end.
 Definition uop_of (e : uev) : uop :=
   match e with URecv d => ORecv d | UParse => OParse | UDirty p => ODirty p end.
-Definition judge_rxudp (c08 : bool) (args : list bytes) : list bytes :=
+Definition judge_rxudp_gen (c08 wire : bool) (args : list bytes) : list bytes :=
   match d_udp_case args with
   | Some ((asize, evs), obs) =>
       match run_dec (dlet rs := d_list d_udp_result in dlet sz := d_nat in dlet bl := d_bool in
                      d_ret (rs, sz, bl)) obs with
-      | Some (rs, _, bl) =>
+      | Some (rs, sz, bl) =>
           match all_some rs with
           | None => [s2b "bad"; s2b "panic-or-hang"]
-          | Some rs' => verdict (if c08 then negb bl else judge_C10 asize (map uop_of evs) rs')
+          | Some rs' =>
+              if (wire && negb (Nat.eqb sz 0))%bool then [s2b "bad"; s2b "buffer-pooled-twice"]
+              else verdict (if c08 then negb bl else judge_C10 asize (map uop_of evs) rs')
           end
       | None => [s2b "decode-error"]
       end
   | None => [s2b "decode-error"]
   end.
+Definition judge_rxudp (c08 : bool) := judge_rxudp_gen c08 false.
 
 Definition judge_rxpool (args : list bytes) : list bytes :=
   match d_pool_case args with
@@ -155,5 +165,6 @@ Definition judge_bufio (comp : bytes) (args : list bytes) : option (list bytes) 
   else if beq comp (s2b "rxstream-c08") then Some (judge_rxstream true args)
   else if beq comp (s2b "rxudp") then Some (judge_rxudp false args)
   else if beq comp (s2b "rxudp-c08") then Some (judge_rxudp true args)
+  else if beq comp (s2b "rxwire") then Some (judge_rxudp_gen false true args)
   else if beq comp (s2b "rxpool") then Some (judge_rxpool args)
   else None.
